@@ -69,7 +69,7 @@ def get_dep_identifier(name: str, kwargs: DependencyObjectKWs) -> 'TV_DepID':
         if isinstance(value, list):
             for i in value:
                 assert isinstance(i, str), i
-            value = tuple(frozenset(listify(value)))
+            value = tuple(sorted(frozenset(listify(value))))
         elif isinstance(value, enum.Enum):
             value = value.value
             assert isinstance(value, str), 'for mypy'
